@@ -53,6 +53,10 @@ package knx
 //@   ensures [success] !tcp && err == nil ==> conn.seqNumber == s0 + 1 && nrecv(conn.ack) >= old(nrecv(conn.ack)) + 1 && lastrecv(conn.ack).SeqNumber == s0 && lastrecv(conn.ack).Status == 0
 //@   ensures [counter] !tcp ==> conn.seqNumber == s0 || (conn.seqNumber == s0 + 1 && lastrecv(conn.ack).SeqNumber == s0)
 //@   ensures [badstatus] !tcp && conn.seqNumber == s0 + 1 && lastrecv(conn.ack).Status != 0 ==> err != nil
+//@   -- a matching acknowledgement ends the call and advances the counter whatever its status;
+//@   -- an acknowledgement for another sequence number never ends the call (prev = head of the last iteration)
+//@   ensures [matching] !tcp && nrecv(conn.ack) > prev(nrecv(conn.ack)) && lastrecv(conn.ack).SeqNumber == s0 ==> conn.seqNumber == s0 + 1 && (err == nil) == (lastrecv(conn.ack).Status == 0)
+//@   ensures [ignored] !tcp && nrecv(conn.ack) > prev(nrecv(conn.ack)) ==> lastrecv(conn.ack).SeqNumber == s0
 //@   ensures [timing] !tcp && gcount("nafter") > old(gcount("nafter")) ==> gval("lastticker.d") == int64(conn.config.ResendInterval) && gval("lastafter.d") == int64(conn.config.ResponseTimeout) && gcount("nticker") == old(gcount("nticker")) + 1 && gcount("nafter") == old(gcount("nafter")) + 1
 //@   assigns conn.seqNumber
 //@   loop 0 invariant held(conn.seqMu) && conn.seqNumber == s0 && !tcp
@@ -61,7 +65,7 @@ package knx
 //@   loop 0 invariant req.Channel == conn.channel && req.SeqNumber == s0 && req.Payload == data
 //@   loop 0 invariant gval("lastticker.d") == int64(conn.config.ResendInterval) && gval("lastafter.d") == int64(conn.config.ResponseTimeout) && gcount("nticker") == old(gcount("nticker")) + 1 && gcount("nafter") == old(gcount("nafter")) + 1
 //@   loop 0 assigns nothing
-//@   loop 0 ghost nsend lastsend sendsame nrecv lastrecv
+//@   loop 0 ghost nsend lastsend sendsame sendclock nrecv lastrecv nrecvc
 
 //@ func (conn *Tunnel) handleTunnelRes(res *knxnet.TunnelRes) (err error)
 //@   props C03
@@ -101,10 +105,12 @@ package knx
 
 //@ func (conn *Tunnel) performHeartbeat(heartbeat <-chan knxnet.ErrCode, timeout chan<- struct{})
 //@   props C09
-//@   ghost nsend(conn.sock) lastsend(conn.sock) sendsame(conn.sock) sendclock(conn.sock) nrecv(heartbeat) lastrecv(heartbeat) nrecv(conn.done) lastrecv(conn.done) nticker ntickerstop nafter period lastticker.d lastafter.d nsent(timeout) lastsent(timeout)
+//@   ghost nsend(conn.sock) lastsend(conn.sock) sendsame(conn.sock) sendclock(conn.sock) nrecv(heartbeat) lastrecv(heartbeat) nrecv(conn.done) lastrecv(conn.done) nrecvc(conn.done) nrecvc(heartbeat) nticker ntickerstop nafter period lastticker.d lastafter.d nsent(timeout) lastsent(timeout)
 //@   noterm
 //@   requires conn.sock != nil && conn.config.ResendInterval > 0 && !closed(timeout)
 //@   ensures [signal] nsent(timeout) > old(nsent(timeout)) ==> nsent(timeout) == old(nsent(timeout)) + 1 && (nrecv(heartbeat) == old(nrecv(heartbeat)) || lastrecv(heartbeat) != 0)
+//@   ensures [must.signal] nrecv(heartbeat) > old(nrecv(heartbeat)) && lastrecv(heartbeat) != 0 ==> nsent(timeout) == old(nsent(timeout)) + 1 || nrecv(conn.done) > old(nrecv(conn.done)) || nrecvc(conn.done) > old(nrecvc(conn.done))
+//@   ensures [must.signal.silent] nrecv(heartbeat) == old(nrecv(heartbeat)) ==> nsent(timeout) == old(nsent(timeout)) + 1 || nrecv(conn.done) > old(nrecv(conn.done)) || nrecvc(conn.done) > old(nrecvc(conn.done))
 //@   ensures [request] nsend(conn.sock) >= old(nsend(conn.sock)) + 1
 //@   ensures [frame.inbound] nsent(conn.inbound) == old(nsent(conn.inbound)) && nsent(conn.ack) == old(nsent(conn.ack))
 //@   assigns nothing
@@ -147,6 +153,10 @@ package knx
 //@   requires conn.sock != nil && conn.config.ResendInterval > 0 && conn.config.HeartbeatInterval > 0 && !closed(conn.inbound) && base(conn.ack) != base(conn.inbound)
 //@   ensures [outcomes] err == nil || err == errHeartbeatFailed || err == errInboundClosed || err == errDisconnected
 //@   ensures [inbound.open] !closed(conn.inbound)
+//@   ensures [discres] nrecv(conn.sock.Inbound()) > prev(nrecv(conn.sock.Inbound())) && typeis(lastrecv(conn.sock.Inbound()), *knxnet.DiscRes) ==> err == nil && lastrecv(conn.sock.Inbound()).(*knxnet.DiscRes).Channel == conn.channel
+//@   ensures [discreq] nrecv(conn.sock.Inbound()) > prev(nrecv(conn.sock.Inbound())) && typeis(lastrecv(conn.sock.Inbound()), *knxnet.DiscReq) ==> err == errDisconnected && lastrecv(conn.sock.Inbound()).(*knxnet.DiscReq).Channel == conn.channel
+//@   ensures [socket.end] nrecvc(conn.sock.Inbound()) > prev(nrecvc(conn.sock.Inbound())) ==> err == errInboundClosed
+//@   ensures [other.frames] nrecv(conn.sock.Inbound()) > prev(nrecv(conn.sock.Inbound())) ==> typeis(lastrecv(conn.sock.Inbound()), *knxnet.DiscRes) || typeis(lastrecv(conn.sock.Inbound()), *knxnet.DiscReq)
 //@   assigns nothing
 //@   loop 0 invariant !closed(conn.inbound) && !closed(heartbeat) && !closed(timeout)
 //@   -- C04 at the level of the receive loop: a tunnelling request taken from the socket in this iteration
